@@ -637,7 +637,55 @@ func (g *G) MultiLineString() geom.MultiLineString {
 	return geom.NewMultiLineString(ls)
 }
 
+// islandMultiPolygon: a member with a hole and another member (an island) inside that hole, optionally
+// touching the hole's ring at one vertex, in either member order; nil when the lattice is too small.
+func (g *G) islandMultiPolygon() *geom.MultiPolygon {
+	S := g.Cfg.Side
+	if S < 5 {
+		return nil
+	}
+	s := g.R.Range(5, 9)
+	if s > S {
+		s = S
+	}
+	o := ip{g.R.Intn(S - s + 1), g.R.Intn(S - s + 1)}
+	at := func(x, y int) ip { return ip{o.x + x, o.y + y} }
+	outer := []ip{at(0, 0), at(s, 0), at(s, s), at(0, s)}
+	hole := []ip{at(1, 1), at(1, s-1), at(s-1, s-1), at(s-1, 1)}
+	for tries := 0; tries < 20; tries++ {
+		var pts []ip
+		for i := g.R.Range(3, 5); i > 0; i-- {
+			pts = append(pts, at(g.R.Range(2, s-2), g.R.Range(2, s-2)))
+		}
+		if g.R.Chance(1, 3) { // touch the hole's ring at one point
+			pts[0] = at(1, g.R.Range(2, s-2))
+		}
+		h := hullOf(pts)
+		if len(h) < 3 {
+			continue
+		}
+		k := g.R.Intn(len(h))
+		h = append(h[k:], h[:k]...)
+		k = g.R.Intn(4)
+		outer = append(outer[k:], outer[:k]...)
+		ps := []geom.Polygon{g.polyFromRings([][]ip{closeRing(outer), closeRing(hole)}), g.polyFromRings([][]ip{closeRing(h)})}
+		if g.R.Bool() {
+			ps[0], ps[1] = ps[1], ps[0]
+		}
+		mp := geom.NewMultiPolygon(ps)
+		if valid(mp.AsGeometry()) {
+			return &mp
+		}
+	}
+	return nil
+}
+
 func (g *G) MultiPolygon() geom.MultiPolygon {
+	if g.R.Chance(1, 5) {
+		if mp := g.islandMultiPolygon(); mp != nil {
+			return *mp
+		}
+	}
 	for tries := 0; tries < 40; tries++ {
 		n := g.R.Range(2, 3)
 		ps := make([]geom.Polygon, n)
